@@ -1294,6 +1294,8 @@ class Exec(object):
         if isinstance(f, SCallable):
             return f.model(self, args, kwargs, line)
         if isinstance(f, ClassRef):
+            if f.qual in self.models:
+                return self.models[f.qual](self, args, kwargs, line)
             return self.instantiate(f, args, kwargs, line)
         if isinstance(f, Closure):
             return self.call_closure(f, args, kwargs, line)
